@@ -32,13 +32,13 @@ RULE = ('cases = program of <= 30 steps (op, raw ints) over the ManageSieve '
 ASSUMPTIONS = ['script bodies are not required to be valid Sieve (the '
                'listener does not validate on PUTSCRIPT; not part of the '
                'statement)',
-               'names are valid UTF-8 without NUL/CR/LF; RENAMESCRIPT onto '
+               'names are valid UTF-8, incl. CR/LF/NUL (sent as literals); RENAMESCRIPT onto '
                'itself may answer OK or NO']
 BUDGET = {'quick': (250, 16), 'thorough': (6000, 16)}
 CASE_CPU_BUDGET = 20.0
 
 NAMES = ['a', 'b', 'c', 'main', 'x y', 'q"t', 'b\\s', 'é', '中文', 'N' * 200,
-         '', 'A', 'a ', '{5}', 'ACTIVE', 'n{2+}']
+         '', 'A', 'a ', '{5}', 'ACTIVE', 'n{2+}', 'a\r\nb', 'n\x00l', 'l\nf']
 BODIES = [b'keep;', b'', b'discard;\r\n', b'if true { keep; }',
           b'\x00\x01\xff', b'"quoted" \\back', b'x' * 4096, b'line1\nline2',
           b'# comment\r\nrequire "fileinto";\r\nfileinto "x";\r\n', b'\r\n',
